@@ -36,7 +36,7 @@ INV = "INVARIANTS PoolConflictFree PoolValidWhenClean PoolWithinLimit PoolNoChai
 
 
 def cfg(txs, blocks, tpb, bad, deliver, submit, maxpool, inv="", extra=""):
-    fix = not any(k.get("key") == "C12:failed-reorg-strands-node" and k.get("status", "open") == "open"
+    fix = bool(os.environ.get("VERIF_ASSUME_REORG_FIX")) or not any(k.get("key") == "C12:failed-reorg-strands-node" and k.get("status", "open") == "open"
                   for k in vf.load_known())
     return CFG % dict(txs=", ".join('"%s"' % t for t in txs), blocks=blocks, tpb=tpb, bad=bad, deliver=deliver,
                       submit=submit, maxpool=maxpool, fix="TRUE" if fix else "FALSE", inv=inv, extra=extra)
